@@ -66,7 +66,13 @@ class Container:
     def __contains__(self, item):
         if hasattr(item, "id"):
             if isinstance(item, self._itemclass):
-                return item.name in self._backend
+                # the entity stored under that name must be this very object,
+                # not merely an entity of the same name (e.g. in another block)
+                if item.name not in self._backend:
+                    return False
+                h5g = item._h5group
+                mine = h5g.group if hasattr(h5g, "group") else h5g.dataset
+                return self._backend.group[item.name] == mine
             # looks like a NIX object, but wrong type
             raise TypeError(
                 "Wrong item type: {} required or the name or ID of one".format(
